@@ -2,6 +2,7 @@ import WsModel.Context
 import WsModel.Endpoint
 import WsModel.Spec.Rfc6455
 import WsModel.Monitor
+import WsModel.Handshake.Model
 
 /-! Line-protocol driver: replays harness transcripts through the model and prints the model's
 observations in the same canonical form, so the two streams can be diffed. -/
@@ -35,9 +36,7 @@ def words (s : String) : List String :=
 
 def kv (toks : List String) (key : String) : Option String :=
   toks.findSome? fun t =>
-    match t.splitOn "=" with
-    | [k, v] => if k == key then some v else none
-    | _ => none
+    if t.startsWith (key ++ "=") then some (t.drop (key.length + 1)).toString else none
 
 def parseKind (s : String) : IoKind :=
   if s == "reset" then .reset else if s == "intr" then .intr
@@ -453,6 +452,241 @@ partial def runCase (lines : Array String) : Array String := Id.run do
     | [] => i := i + 1
   return out
 
+
+/-! ### handshake cases -/
+section Handshake
+open WsModel.Hs
+
+def parseKvList (s : String) : List (Bytes × Bytes) :=
+  if s == "-" || s == "" then []
+  else ((s.splitOn ",").filter (· != "")).filterMap fun p =>
+    match p.splitOn "=" with
+    | [n, v] => some (unhex n, unhex v)
+    | _ => none
+
+def showKvList (hs : List (Bytes × Bytes)) : String :=
+  if hs.isEmpty then "-" else ",".intercalate (hs.map fun (n, v) => s!"{hex n}={hex v}")
+
+def parseHeadParse (toks : List String) : HeadParse :=
+  match toks with
+  | "partial" :: _ => .incomplete
+  | "toomany" :: _ => .tooManyHeaders
+  | "err" :: _ => .error
+  | "complete" :: rest =>
+    .complete (((kv rest "size").bind String.toNat?).getD 0)
+      { method := (match kv rest "method" with | some "-" => [] | some m => unhex m | none => [])
+        version := ((kv rest "version").bind String.toNat?).getD 0
+        code := ((kv rest "code").bind String.toNat?).getD 0
+        uriOk := kv rest "uriok" == some "1"
+        headers := parseKvList ((kv rest "headers").getD "-") }
+  | _ => .error
+
+def showHsErr : HsErr → String
+  | .wrongHttpMethod => "Protocol.WrongHttpMethod"
+  | .wrongHttpVersion => "Protocol.WrongHttpVersion"
+  | .missingConnectionUpgradeHeader => "Protocol.MissingConnectionUpgradeHeader"
+  | .missingUpgradeWebSocketHeader => "Protocol.MissingUpgradeWebSocketHeader"
+  | .missingSecWebSocketVersionHeader => "Protocol.MissingSecWebSocketVersionHeader"
+  | .missingSecWebSocketKey => "Protocol.MissingSecWebSocketKey"
+  | .secWebSocketAcceptKeyMismatch => "Protocol.SecWebSocketAcceptKeyMismatch"
+  | .subProtocol .serverSentSubProtocolNoneRequested => "Protocol.SecWebSocketSubProtocolError(ServerSentSubProtocolNoneRequested)"
+  | .subProtocol .invalidSubProtocol => "Protocol.SecWebSocketSubProtocolError(InvalidSubProtocol)"
+  | .subProtocol .noSubProtocol => "Protocol.SecWebSocketSubProtocolError(NoSubProtocol)"
+  | .junkAfterRequest => "Protocol.JunkAfterRequest"
+  | .customResponseSuccessful => "Protocol.CustomResponseSuccessful"
+  | .handshakeIncomplete => "Protocol.HandshakeIncomplete"
+  | .httparse => "Protocol.HttparseError"
+  | .tooManyHeaders => "Capacity.TooManyHeaders"
+  | .httpFormat => "HttpFormat"
+  | .attackAttempt => "AttackAttempt"
+  | .utf8 => "Utf8"
+  | .invalidHeader n => s!"Protocol.InvalidHeader(\"{String.ofList (n.map fun b => Char.ofNat b.toNat)}\")"
+  | .urlUnsupportedScheme => "Url.UnsupportedUrlScheme"
+  | .urlNoHostName => "Url.NoHostName"
+  | .urlEmptyHostName => "Url.EmptyHostName"
+  | .urlNoPathOrQuery => "Url.NoPathOrQuery"
+  | .io k => "Io." ++ kindName k
+  | .http status body => s!"Http({status},{match body with | some b => hex b | none => "none"})"
+
+inductive HsStage where
+  | fresh
+  | serverMid (m : ServerMid)
+  | clientMid (m : ClientMid)
+  | socket (w : World)
+  | dead
+
+def parseCallback (spec : String) (statusLine : Bytes) : Callback :=
+  match spec.splitOn ":" with
+  | ["none"] => .none_
+  | "accept" :: hs :: _ => .accept (parseKvList hs)
+  | ["accept"] => .accept []
+  | "reject" :: status :: body :: rest =>
+    .reject (status.toNat?.getD 0) statusLine (parseKvList (rest.headD "-"))
+      (if body == "none" then none else some (unhex body))
+  | _ => .none_
+
+def optHex (s : Option String) : Option Bytes :=
+  match s with
+  | none => none
+  | some "none" => none
+  | some h => some (unhex h)
+
+/-- process one handshake case -/
+partial def runHsCase (lines : Array String) : Array String := Id.run do
+  let mut out : Array String := #[]
+  let isServer := (lines[0]?.getD "").splitOn " " |>.any (· == "hs-server")
+  -- the parse oracle: result of httparse for each buffer length seen in this case
+  let table : List (Nat × HeadParse) := lines.toList.filterMap fun l =>
+    match words l with
+    | "parsed" :: n :: rest => some (n.toNat?.getD 0, parseHeadParse rest)
+    | _ => none
+  let parse : Bytes → HeadParse := fun buf =>
+    match table.find? (·.1 == buf.length) with
+    | some (_, r) => r
+    | none => .error
+  let statusLine : Bytes := match lines.toList.findSome? fun l =>
+      match words l with | ["statusline", h] => some (unhex h) | _ => none with
+    | some b => b
+    | none => []
+  let mut hcfg : List String := []
+  let mut cfgToks : Option (List String) := none
+  let mut stage : HsStage := .fresh
+  let mut trans : Transport := { rd := [], wr := [], fl := [] }
+  let mut i := 0
+  while i < lines.size do
+    let line := lines[i]!
+    let toks := words line
+    match toks with
+    | "hcfg" :: rest => hcfg := rest; out := out.push line; i := i + 1
+    | "cfg" :: _ => cfgToks := some toks; out := out.push line; i := i + 1
+    | "op" :: rest =>
+      out := out.push line
+      let mut j := i + 1
+      let mut ev : Events := {}
+      let mut uriview : Option (List String) := none
+      let mut implReqHeaders : Option String := none
+      let mut echo : Array String := #[]
+      while j < lines.size do
+        let t := words lines[j]!
+        match t with
+        | "io" :: evs => ev := parseIo evs; j := j + 1
+        | "parsed" :: _ => echo := echo.push lines[j]!; j := j + 1
+        | "uriview" :: r => uriview := some r; echo := echo.push lines[j]!; j := j + 1
+        | "reqheaders" :: r => implReqHeaders := r.head?; j := j + 1
+        | "res" :: _ => j := j + 1
+        | "wire" :: _ => j := j + 1
+        | "can" :: _ => j := j + 1
+        | _ => break
+      i := j
+      let body := rest.filter (fun t => !t.startsWith "m=")
+      let masks := parseMasks toks
+      let t0 : Transport := { trans with rd := ev.rd, wr := ev.wr, fl := ev.fl, log := [], exhausted := false,
+                                          accepted := [], flushedUpTo := 0 }
+      let finish (t : Transport) (res : String) (extra : List String) : Array String :=
+        let calls := t.log.reverse.map showCall
+        let io := if calls.isEmpty then "-" else " ".intercalate calls
+        let io := if t.exhausted then io ++ " !script-exhausted" else io
+        let io := if !t.rd.isEmpty || !t.wr.isEmpty || !t.fl.isEmpty then io ++ " !events-left" else io
+        #[s!"io {io}"] ++ echo ++ extra.toArray ++ #[s!"res {res}", s!"wire {hex t.accepted}"]
+      let mkWorld (role : Role) (pre : Bytes) : Option World :=
+        let cfg : Config := match cfgToks with
+          | some ts => (parseCfg ts).2.1
+          | none => {}
+        (Ctx.new role cfg pre).map fun c => { c := c, t := { rd := [], wr := [], fl := [] } }
+      match body, stage with
+      | "accept" :: _, .fresh =>
+        let cb := parseCallback ((kv hcfg "callback").getD "none") statusLine
+        let m := serverStart cb
+        let (t, m', o) := serverLoop parse (hsFuel m.state t0) m t0
+        trans := t
+        match o with
+        | .done () =>
+          stage := match mkWorld .server [] with | some w => .socket w | none => .dead
+          for l in finish t "hs ok" [] do out := out.push l
+        | .interrupted => stage := .serverMid m'; for l in finish t "hs interrupted" [] do out := out.push l
+        | .failed e => stage := .dead; for l in finish t s!"hs err {showHsErr e}" [] do out := out.push l
+        | .panic => stage := .dead; for l in finish t "panic" [] do out := out.push l
+      | "resume" :: _, .serverMid m =>
+        let (t, m', o) := serverLoop parse (hsFuel m.state t0) m t0
+        trans := t
+        match o with
+        | .done () =>
+          stage := match mkWorld .server [] with | some w => .socket w | none => .dead
+          for l in finish t "hs ok" [] do out := out.push l
+        | .interrupted => stage := .serverMid m'; for l in finish t "hs interrupted" [] do out := out.push l
+        | .failed e => stage := .dead; for l in finish t s!"hs err {showHsErr e}" [] do out := out.push l
+        | .panic => stage := .dead; for l in finish t "panic" [] do out := out.push l
+      | "client" :: _, .fresh =>
+        -- the URI as http::Uri sees it (oracle) and the key the implementation generated (oracle)
+        match uriview with
+        | none | some ["invalid"] =>
+          stage := .dead
+          for l in finish t0 "hs err HttpFormat" [] do out := out.push l
+        | some uv =>
+          let u : UriView := { scheme := optHex (kv uv "scheme"), authority := optHex (kv uv "authority"),
+                               pathAndQuery := optHex (kv uv "path") }
+          let implHs := parseKvList (implReqHeaders.getD "-")
+          let key := (hget implHs reqKeyName).getD []
+          let built : Except HsErr HMap :=
+            match kv hcfg "custom" with
+            | some c => .ok (HMap.ofList (parseKvList c))
+            | none =>
+              let protos := match kv hcfg "protos" with
+                | some "-" => []
+                | some p => ((p.splitOn ",").filter (· != "")).map unhex
+                | none => []
+              requestFromUri u key (parseKvList ((kv hcfg "extra").getD "-")) protos
+          match built with
+          | .error e => stage := .dead; for l in finish t0 s!"hs err {showHsErr e}" [] do out := out.push l
+          | .ok hm =>
+            let rh := s!"reqheaders {showKvList hm.iter}"
+            match clientStart u hm with
+            | .error e => stage := .dead; for l in finish t0 s!"hs err {showHsErr e}" [rh] do out := out.push l
+            | .ok (vd, req) =>
+              let m : ClientMid := { verify := vd, state := .writing req }
+              let (t, m', o) := clientLoop parse (hsFuel m.state t0) m t0
+              trans := t
+              match o with
+              | .done tail =>
+                stage := match mkWorld .client tail with | some w => .socket w | none => .dead
+                for l in finish t "hs ok" [rh] do out := out.push l
+              | .interrupted => stage := .clientMid m'; for l in finish t "hs interrupted" [rh] do out := out.push l
+              | .failed e => stage := .dead; for l in finish t s!"hs err {showHsErr e}" [rh] do out := out.push l
+              | .panic => stage := .dead; for l in finish t "panic" [rh] do out := out.push l
+      | "resume" :: _, .clientMid m =>
+        let (t, m', o) := clientLoop parse (hsFuel m.state t0) m t0
+        trans := t
+        match o with
+        | .done tail =>
+          stage := match mkWorld .client tail with | some w => .socket w | none => .dead
+          for l in finish t "hs ok" [] do out := out.push l
+        | .interrupted => stage := .clientMid m'; for l in finish t "hs interrupted" [] do out := out.push l
+        | .failed e => stage := .dead; for l in finish t s!"hs err {showHsErr e}" [] do out := out.push l
+        | .panic => stage := .dead; for l in finish t "panic" [] do out := out.push l
+      | "resume" :: _, .socket _ =>
+        for l in finish t0 "nosocket" [] do out := out.push l
+      | _, .socket w =>
+        let (w', ls) := runOp w body masks ev
+        stage := .socket w'
+        for l in ls do
+          -- handshake transcripts carry no mask-usage count
+          if l.startsWith "can " then
+            out := out.push (" ".intercalate ((words l).filter fun t => !t.startsWith "mu="))
+          else out := out.push l
+      | _, _ =>
+        for l in finish t0 "nosocket" [] do out := out.push l
+    | tag :: _ =>
+      if tag == "io" || tag == "res" || tag == "wire" || tag == "can" || tag == "parsed" || tag == "uriview"
+          || tag == "reqheaders" then
+        i := i + 1
+      else
+        out := out.push line
+        i := i + 1
+    | [] => i := i + 1
+  return out
+
+end Handshake
+
 end Drv
 
 partial def loop (h : IO.FS.Stream) (out : IO.FS.Stream) (cur : Array String)
@@ -478,7 +712,9 @@ partial def loop (h : IO.FS.Stream) (out : IO.FS.Stream) (cur : Array String)
   else if cur.isEmpty && toks.isEmpty then
     loop h out #[] lastPure
   else if l == "end" then
-    for o in Drv.runCase (cur.push l) do out.putStrLn o
+    let all := cur.push l
+    let isHs := ((all[0]?.getD "").splitOn " ").any fun t => t == "hs-server" || t == "hs-client"
+    for o in (if isHs then Drv.runHsCase all else Drv.runCase all) do out.putStrLn o
     loop h out #[] none
   else
     loop h out (cur.push l) none
